@@ -2192,3 +2192,252 @@ func c19DecodeIntoFresh(c *Ctx, p *Prog) {
 	}
 	c.Floor(R, "JSON decodes into iterator fields in the storage client", n, 1)
 }
+
+// c03WrapDetected (C03/R14): adding the next digit is checked for wrap-around: in ParseUint the sum n + digit is
+// compared with n itself (n1 < n), not only with the width's maximum — for 64 bits the maximum can never be exceeded,
+// the sum just wraps.
+func c03WrapDetected(c *Ctx, p *Prog) {
+	const R = "C03/R14"
+	fn := p.Fn("benchfmt/internal/bytesconv", "ParseUint")
+	if fn == nil {
+		c.Undecided(R, "anchor:ParseUint", "", "not found")
+		return
+	}
+	n := 0
+	eachInstr(fn, func(_ *ssa.BasicBlock, in ssa.Instruction) {
+		add, ok := in.(*ssa.BinOp)
+		if !ok || add.Op != token.ADD || !isInteger(add.Type()) {
+			return
+		}
+		// (a loop counter stepping by a constant is not the accumulator)
+		if _, isK := add.Y.(*ssa.Const); isK {
+			return
+		}
+		if _, isK := add.X.(*ssa.Const); isK {
+			return
+		}
+		// the accumulator: one operand derives from a loop-carried value that this sum flows back into
+		var operand ssa.Value
+		for _, o := range []ssa.Value{add.X, add.Y} {
+			if reaches(o, func(x ssa.Value) bool {
+				ph, ok := x.(*ssa.Phi)
+				if !ok {
+					return false
+				}
+				for _, e := range ph.Edges {
+					if e == ssa.Value(add) {
+						return true
+					}
+				}
+				return false
+			}) {
+				operand = o
+			}
+		}
+		if operand == nil {
+			return
+		}
+		n++
+		checked := false
+		for _, r := range *add.Referrers() {
+			if bo, ok := r.(*ssa.BinOp); ok {
+				switch bo.Op {
+				case token.LSS, token.GTR, token.LEQ, token.GEQ:
+					if bo.X == ssa.Value(add) && bo.Y == operand || bo.Y == ssa.Value(add) && bo.X == operand {
+						checked = true
+					}
+				}
+			}
+		}
+		c.Check(checked, R, fmt.Sprintf("ParseUint:sum#%d checked for wrap-around", n), p.pos(add.Pos()), "the sum is compared with the accumulator it was added to",
+			"the sum of the accumulator and the next digit is not compared with the accumulator itself: for 64-bit values a comparison with the maximum can never fail, so magnitudes from 2^64 on wrap round silently (an iteration count of 18446744073709551617 reads as 1)")
+	})
+	c.Floor(R, "digit sums flowing back into the accumulator in ParseUint", n, 1)
+}
+
+// c05AbsentAfterScan (C05/R9): a sub-name key is absent only when no part has it: in the lookup every return of nil
+// lies after the loop over the parts (no shortcut decides "absent" from the name as a whole); c05SuffixGuards
+// (C05/R10): the -N form is returned under no other condition than "this is /gomaxprocs", "there is a part" and "it
+// begins with the dash".
+func c05AbsentAfterScan(c *Ctx, p *Prog) {
+	fn := p.Fn("benchproc", "extractNamePart")
+	if fn == nil {
+		c.Undecided("C05/R9", "anchor:extractNamePart", "", "not found")
+		return
+	}
+	site := p.pos(fn.Pos())
+	loops := naturalLoops(fn)
+	bad, nNil := "", 0
+	for _, b := range fn.Blocks {
+		ret, ok := b.Instrs[len(b.Instrs)-1].(*ssa.Return)
+		if !ok {
+			continue
+		}
+		k, isK := retVal(ret, 0).(*ssa.Const)
+		if !isK || !k.IsNil() {
+			continue
+		}
+		nNil++
+		after := false
+		for _, lp := range loops {
+			if lp.Header.Dominates(b) && !lp.Blocks[b] {
+				after = true
+			}
+		}
+		if !after {
+			bad = p.pos(ret.Pos())
+		}
+	}
+	c.Check(bad == "" && nNil > 0 && len(loops) > 0, "C05/R9", "extractNamePart:absent only after the scan", site, "every nil return follows the loop over the parts",
+		"the lookup returns \"absent\" (at "+bad+") without having gone through the parts: a test on the name as a whole decides instead, and names it misjudges (an empty base, so that the key starts at offset 0) lose the key")
+	// the -N return: a slice of the last part from 1
+	n := 0
+	for _, b := range fn.Blocks {
+		ret, ok := b.Instrs[len(b.Instrs)-1].(*ssa.Return)
+		if !ok {
+			continue
+		}
+		sl, ok := retVal(ret, 0).(*ssa.Slice)
+		if !ok || sl.Low == nil {
+			continue
+		}
+		if k, ok := constInt(sl.Low); !ok || k != 1 {
+			continue
+		}
+		n++
+		extra := ""
+		for _, f := range factsAt(b) {
+			okCond := false
+			switch x := f.Cond.(type) {
+			case *ssa.Parameter:
+				okCond = isBoolean(x.Type())
+			case *ssa.BinOp:
+				// len(parts) > 0 (any comparison of a length with a constant), or the first byte compared with '-'
+				isLen := func(v ssa.Value) bool {
+					cl, ok := v.(*ssa.Call)
+					if !ok {
+						return false
+					}
+					bi, ok := cl.Call.Value.(*ssa.Builtin)
+					return ok && bi.Name() == "len"
+				}
+				if isLen(x.X) || isLen(x.Y) {
+					okCond = true
+				}
+				for _, side := range [][2]ssa.Value{{x.X, x.Y}, {x.Y, x.X}} {
+					if k, ok := constInt(side[1]); ok && k == '-' {
+						if ld, ok := side[0].(*ssa.UnOp); ok {
+							if ia, ok := ld.X.(*ssa.IndexAddr); ok {
+								if i0, ok := constInt(ia.Index); ok && i0 == 0 {
+									okCond = true
+								}
+							}
+						}
+					}
+				}
+			}
+			if !okCond {
+				extra = p.pos(f.If.Pos())
+				if extra == "" {
+					extra = valStr(f.Cond)
+				}
+			}
+		}
+		c.Check(extra == "", "C05/R10", fmt.Sprintf("extractNamePart:-N form#%d", n), p.pos(ret.Pos()), "returned whenever the last part begins with the dash",
+			"the -N form is returned only under a further condition (at "+extra+"): Name.Parts still splits the suffix off, so for the names that fail the extra test (-0, -08) /gomaxprocs is empty although the name has the part")
+	}
+	c.Floor("C05/R10", "returns of the -N form", n, 1)
+}
+
+// c07EveryWordQuoted (C07/R20): a projection field prints so that it reads back: in Field.String no element of the
+// fixed value list reaches the text except as the result of quoteWord.
+func c07EveryWordQuoted(c *Ctx, p *Prog) {
+	const R = "C07/R20"
+	fn := p.Method("benchproc/internal/parse", "Field", "String")
+	fixedF := p.Field("benchproc/internal/parse", "Field", "Fixed")
+	if fn == nil || fixedF == nil {
+		c.Undecided(R, "anchor:parse.Field.String/Fixed", "", "not found")
+		return
+	}
+	n := 0
+	bad := ""
+	eachInstr(fn, func(_ *ssa.BasicBlock, in ssa.Instruction) {
+		ld, ok := in.(*ssa.UnOp)
+		if !ok || ld.Op != token.MUL || !isString(ld.Type()) {
+			return
+		}
+		ia, ok := ld.X.(*ssa.IndexAddr)
+		if !ok || !reaches(ia.X, func(v ssa.Value) bool {
+			f, _ := fieldOfAddr(v)
+			if f == fixedF {
+				return true
+			}
+			g, _ := fieldOfVal(v)
+			return g == fixedF
+		}) {
+			return
+		}
+		n++
+		for _, r := range *ld.Referrers() {
+			switch x := r.(type) {
+			case *ssa.DebugRef:
+			case *ssa.Call:
+				if h := x.Call.StaticCallee(); h == nil || h.Name() != "quoteWord" {
+					bad = p.pos(x.Pos())
+				}
+			default:
+				bad = p.pos(r.Pos())
+				if bad == "" {
+					bad = fmt.Sprintf("%T", r)
+				}
+			}
+		}
+	})
+	c.Check(bad == "" && n > 0, R, "Field.String:every listed value is quoted", p.pos(fn.Pos()), "elements of the value list are used only as arguments of quoteWord",
+		"an element of the fixed value list is used otherwise than as quoteWord's argument (at "+bad+"): a value that needs quoting (a space, an operator character, a leading '-', the empty string) is printed raw, and the printed field does not parse back to the same field")
+}
+
+// c13FirstModeWins (C13/R10 = C14/R19): with several equally frequent values the first (smallest, the values being
+// sorted) is the mode: in the exact summary the candidate replaces the mode only when its count is strictly greater.
+// Variables found by SSA name; no claim when renamed.
+func c13FirstModeWins(c *Ctx, p *Prog, R string) {
+	fn := p.Method("benchmath", "assumeExact", "Summary")
+	if fn == nil {
+		c.Undecided(R, "anchor:assumeExact.Summary", "", "not found")
+		return
+	}
+	site := p.pos(fn.Pos())
+	found := false
+	eachInstr(fn, func(_ *ssa.BasicBlock, in ssa.Instruction) {
+		bo, ok := in.(*ssa.BinOp)
+		if !ok {
+			return
+		}
+		name := func(v ssa.Value) string {
+			if ph, ok := v.(*ssa.Phi); ok {
+				return ph.Comment
+			}
+			return ""
+		}
+		isCount := func(v ssa.Value) bool {
+			return name(v) == "count" || reaches(v, func(x ssa.Value) bool { return name(x) == "count" }) && name(v) != "modeCount"
+		}
+		var strict, known bool
+		switch {
+		case isCount(bo.X) && name(bo.Y) == "modeCount":
+			known, strict = true, bo.Op == token.GTR
+		case name(bo.X) == "modeCount" && isCount(bo.Y):
+			known, strict = true, bo.Op == token.LSS
+		}
+		if !known {
+			return
+		}
+		found = true
+		c.Check(strict, R, "assumeExact.Summary:mode replaced only by a strictly more frequent value", p.pos(bo.Pos()), "count > modeCount",
+			"the mode is replaced by a value that is merely as frequent: with a tie ({100,100,101,101}) the centre becomes the largest of the tied values instead of the first, and deltas and geomeans follow")
+	})
+	if !found {
+		c.OK(R, "assumeExact.Summary:mode replaced only by a strictly more frequent value", site, "the variables count/modeCount are not named so any more: no claim")
+		c.Note("%s makes no claim: assumeExact.Summary no longer has variables named count and modeCount", R)
+	}
+}
